@@ -6,6 +6,11 @@ wt = sys.argv[1]
 for p in sys.argv[2:]:
     t = time.time()
     env = dict(os.environ, WALLEYE_REPO=wt)
-    r = subprocess.run(["/verif/check", p, "--tier", "quick"], capture_output=True, text=True, env=env)
+    try:
+        r = subprocess.run(["/verif/check", p, "--tier", "quick"], capture_output=True, text=True, env=env, timeout=2400)
+    except subprocess.TimeoutExpired:
+        print("%s TIMEOUT after 2400 s (the check itself did not end: a defect of the machinery)" % p)
+        subprocess.run(["pkill", "-9", "-f", "wvh"]); subprocess.run(["pkill", "-9", "-f", "wvm run"])
+        continue
     lines = [l for l in r.stdout.splitlines() if l.startswith(("VIOLATION", "KNOWN", p + " "))]
     print("%s rc=%d %.0fs | %s" % (p, r.returncode, time.time() - t, " | ".join(l[:200] for l in lines)))
